@@ -950,6 +950,24 @@ def header_obs():
                note='one header record with arbitrary sub-letter / 32-bit value / short read against every configuration: refused exactly when not usable')]
 
 
+MAP_ASSIGN = dict(region='map_assign', file='cmdline/state.c', begin='/* map disks */', end='#if HAVE_MT_WRITE', end_first_after=True, max_lines=35, expect_loops=1,
+                  proto='static void region_map_assign(struct snapraid_state *state, block_off_t blockmax)', prologue='\ttommy_node *i;\n\tint mapping_idx;')
+MAP_WRITE = dict(region='map_write', file='cmdline/state.c', begin='/* for each map */', end='/* for each parity */', end_first_after=True, max_lines=40, expect_loops=1,
+                 proto='static void *region_map_write(struct snapraid_state *state, STREAM *f, void *context)', prologue='\ttommy_node *i;', epilogue='\treturn 0;')
+MAP_READ = dict(region='map_read', file='cmdline/state.c', begin="} else if (c == 'm' || c == 'M') {", end="} else if (c == 'P') {", end_first_after=True, max_lines=100, expect_loops=0,
+                proto='static void region_map_read(struct snapraid_state *state, STREAM *f, const char *path, int c, uint32_t *mapping_max_p)',
+                prologue='\tint ret;\n\tchar buffer[PATH_MAX];\n\tuint32_t mapping_max = *mapping_max_p;\n\ttommy_array disk_mapping;', epilogue='\t*mapping_max_p = mapping_max;\n\t(void)disk_mapping;')
+
+
+def maprec_obs():
+    regs = [MAP_ASSIGN, MAP_WRITE, MAP_READ]
+    return [Ob('state.map_records.roundtrip', 'harness/h_maprec.c', 'h_map_records', inject=regs, unwind=6, small_path=True, timeout=900, mem=8, cost=4, kind='bounded', bound='at most 3 disks in the map list',
+               functions=['state_write_content: region "map disks" (cmdline/state.c, extracted mechanically)', 'state_write_thread: region "for each map" (extracted)', "state_read_content: branch of the 'm' / 'M' record (extracted)"],
+               note='1..3 disks, each empty or not, every position / block counts / uuid letter; find_disk_by_name, fs_is_empty, map_alloc, tommy_array_grow / set by stub; list functions real'),
+            Ob('state.map_records.old_format', 'harness/h_maprec.c', 'h_map_old_record', inject=regs, unwind=6, small_path=True, timeout=900, mem=8, cost=3,
+               functions=["state_read_content: branch of the 'm' / 'M' record (cmdline/state.c, extracted mechanically)"], note="an 'm' record (reference format before 7.0) with every position and uuid letter")]
+
+
 def mapguard_obs():
     names = dict(f='file', h='hole', s='symlink', a='hardlink', r='dir')
     return [Ob('state.%s_record.mapping_guard' % l, 'harness/h_staterec.c', 'h_map_guard', inject=[NSEC_ENC, NSEC_DEC] + MAP_REGIONS, defs={'VERIF_MAP_REGIONS': None, 'MAP_RECORD': 'region_map_%s' % l},
@@ -1000,7 +1018,7 @@ def blockruns_obs():
 
 
 def c10(tier, seed):
-    return stream_obs(['h_rt32', 'h_rt64', 'h_rtle32', 'h_rtbs']) + staterec_obs(tier) + blockruns_obs() + frecord_obs() + header_obs()
+    return stream_obs(['h_rt32', 'h_rt64', 'h_rtle32', 'h_rtbs']) + staterec_obs(tier) + blockruns_obs() + frecord_obs() + header_obs() + maprec_obs()
 
 
 PROPS = {
@@ -1057,10 +1075,10 @@ PROPS['C09'].update(
     not_covered=["state_read_content record decoders other than the 'Q' validity region", 'inside of state_write_content / state_verify_content / state_rename_content (O_EXCL, flush, fsync, re-read)', 'crash points (not a contract-level statement)', 'that a CRC mismatch is always reached before any state is used'])
 PROPS['C10'].update(
     explanation='Codec pairs of the content file are exact inverses for ALL values: sgetb32(sputb32(v)) == v for all 2^32 v, sgetb64(sputb64(v)) == v for all 2^64 v, sgetble32/sputble32, sgetbs/sputbs (strings up to 6 arbitrary non-NUL bytes), with the bytes travelling through write() and read() stubs under every chunking and buffer size 1..4; the encoder output is minimal (canonical) and terminated as specified, nothing is left over. '
-                'Record level (mechanically extracted encode/decode regions of state.c, integers travelling through a FIFO that stands for sputb32/sgetb32): the nanosecond field of the f record and the per-stripe info word of the i record round-trip for all values (a time in the future is clamped to now - the documented normalisation). The block runs of the f record (writer loop and reader loop connected through a recorded event stream; bounded: 2 blocks, hash size 4, and 1 block with hash size 16), the header of the f record (size, time, inode, path through a TYPED event stream) and the header records of the file (format version choice, block size, stripe count, hash size, hash kind + seed, previous hash kind + seed: writer region and the five reader branches) round-trip for every value. The hole (h) run-length encoding, map / parity / link / dir records are not under contract.',
+                'Record level (mechanically extracted encode/decode regions of state.c, integers travelling through a FIFO that stands for sputb32/sgetb32): the nanosecond field of the f record and the per-stripe info word of the i record round-trip for all values (a time in the future is clamped to now - the documented normalisation). The block runs of the f record (writer loop and reader loop connected through a recorded event stream; bounded: 2 blocks, hash size 4, and 1 block with hash size 16), the header of the f record (size, time, inode, path through a TYPED event stream) and the header records of the file (format version choice, block size, stripe count, hash size, hash kind + seed, previous hash kind + seed: writer region and the five reader branches) round-trip for every value. Disk maps: index assignment loop, M writer loop and M reader branch (three extracted regions) - entry k of the rebuilt mapping vector is the disk that was given index k, every field of a map survives (bounded: 3 disks). The hole (h) run-length encoding, parity / link / dir records are not under contract.',
     trusted_base=['read()/write() stubs in harness/h_stream.c'],
     assumptions=['sputbs/sgetbs round trip bounded to strings of at most 6 bytes'],
-    not_covered=['hole (h record) and info (i record) run-length codecs, map / parity / link / dir records', 'tommyds containers, list ordering, byte identity of whole files'])
+    not_covered=['hole (h record) and info (i record) run-length codecs, parity / link / dir records', 'tommyds containers, list ordering, byte identity of whole files'])
 PROPS['C17'].update(
     explanation='parity_split_find carries a dfcc-enforced contract for every size vector of up to SPLIT_MAX=8 splits and every offset: the result is the unique split k with prefix(k) + offset\' == offset and 0 <= offset\' < size_k, NULL exactly outside the recorded sizes, only *offset assigned. Over two calls: the address map is injective and, with block-aligned split sizes, no stripe straddles two files. '
                 'parity_write / parity_read hand exactly (fd of split k, offset\', block_size) to pwrite/pread and maintain valid_size monotonically (block sizes 2^10..2^24, concrete per unit). hbit_u64 is the highest set bit (dfcc, all 2^64 values). parity_handle_fill carries an UNBOUNDED inductive loop contract (invariant + decreases, injected into a scratch copy of parity.c, grow/shrink/hbit replaced by contracts): the file ends block aligned, never above the request, never below its previous aligned size, and exactly at the request when the OS granted every grow.',
@@ -1232,7 +1250,7 @@ def c08(tier, seed):
 def c16(tier, seed):
     """format stability = every constant / encoding is pinned to a definition that is not in the repo"""
     c17 = [o for o in PROPS['C17']['obligations'](tier, seed) if o.name in ('parity.split_find.contract', 'parity.split_find.lemma')]
-    return table_obs(tier) + crc_obs(tier) + stream_obs(['h_sgetb32', 'h_sgetb64', 'h_sgetble32', 'h_sgetbs', 'h_rt32', 'h_rt64', 'h_rtle32', 'h_rtbs']) + staterec_obs(tier) + elem_obs(tier) + c17 + hash_obs(tier) + main_obs()[:1] + frecord_obs() + blockruns_obs() + header_obs()
+    return table_obs(tier) + crc_obs(tier) + stream_obs(['h_sgetb32', 'h_sgetb64', 'h_sgetble32', 'h_sgetbs', 'h_rt32', 'h_rt64', 'h_rtle32', 'h_rtbs']) + staterec_obs(tier) + elem_obs(tier) + c17 + hash_obs(tier) + main_obs()[:1] + frecord_obs() + blockruns_obs() + header_obs() + maprec_obs()
 
 
 def c04(tier, seed):
